@@ -395,6 +395,24 @@ func init() {
 	})
 }
 
+func init() {
+	register(&Property{
+		ID:          "C19",
+		Patterns:    []string{"github.com/ory/keto/internal/driver/config", pkgSchema, pkgNs, pkgAst, "github.com/ory/x/watcherx", "io"},
+		HarnessDirs: []string{"internal/driver/config"},
+		Assumptions: []string{"the watcher structs are constructed directly; events are delivered by calling handleChange / handleRemove (no fsnotify, no timing)", "documents per file from a pool of four: valid v1, valid v2, syntactically invalid, type-incorrect; file-specific namespace names", "legacy watcher: GetParser replaced by a parser that accepts 'ok:NAME' (symbolic runs; native replay uses real JSON)"},
+		Outside:     []string{"OS file-event delivery and timing, remote (http, base64) targets", "Config.NamespaceManager re-creation on configuration change", "observation by a concurrent reader between two events (the map swap happens under the write lock)"},
+		Runs: func(tier string) []Run {
+			a := Run{Name: "opl-watcher", Pkg: "github.com/ory/keto/internal/driver/config", Harness: "HarnessC19OPL", Params: map[string]int64{"h": pick(tier, 3, 4)}, Reach: []string{"c19.opl"}}
+			b := Run{Name: "legacy-watcher", Pkg: "github.com/ory/keto/internal/driver/config", Harness: "HarnessC19Legacy", Params: map[string]int64{"h": pick(tier, 3, 5)}, Overrides: map[string]string{"github.com/ory/keto/internal/driver/config.GetParser": "verifGetParser"}, Reach: []string{"c19.legacy"}}
+			return []Run{a, b}
+		},
+		Bounds: func(tier string) map[string]interface{} {
+			return map[string]interface{}{"events": "every sequence of " + itoa(pick(tier, 3, 4)) + " (OPL) / " + itoa(pick(tier, 3, 5)) + " (legacy) events over 2 files x {4 documents, remove}", "observation": "after every event"}
+		},
+	})
+}
+
 func itoa(n int64) string {
 	s := ""
 	if n == 0 {
